@@ -7,6 +7,10 @@ Suites
            decided on sample addresses of the network whose canonical text is produced by ipaddress.
   native : conversion of `f|cidr: s` by a backend with a native CIDR template (four fields) and by a
            backend without one (query = OR of the expanded patterns).
+  render : conversion by backends without a native template for the four combinations of convert_or_as_in x
+           in_expressions_allow_wildcards; the rendered query is read back with the semantics the backend
+           declares (values of a value list are literals unless wildcards are allowed in lists) and exactness
+           (IPv4, integer ranges) / coverage (IPv6, samples) is decided on the query.
   print6 : the RFC 5952 printer of the model against ipaddress.
 """
 import ipaddress, random, re
@@ -340,6 +344,51 @@ def mutate_native(c, rng):
         out.append({"s": k["s"], "net": k["exp"]})
     return out
 
+# ------------------------------------------------------------------ render suite
+def gen_render(tier, rng):
+    quick = tier == "quick"
+    QUICK[0] = quick
+    out = []
+    for ln in range(33):
+        for a in rng.sample(V4_ADDRS, 1 if quick else 6) + [rng.randrange(1 << 32)]:
+            c = case4(a, ln, "prefix", rng)
+            out.append({"s": c["s"], "net": c["exp"], "samples": []})
+    temps = zero_run_templates()
+    for ln in range(129):
+        gs = [temps[36]] + rng.sample(temps, 0 if quick and ln % 4 else 1 if quick else 6)
+        for g in gs:
+            c = case6(g2a(g), ln, "canon", rng)
+            out.append({"s": c["s"], "net": c["exp"], "samples": c["samples"][: (8 if quick else 24)]})
+        if ln % 32 == 0:
+            c = case6(g2a(temps[36]), ln, "canon", rng, scope="eth0")
+            out.append({"s": c["s"], "net": c["exp"], "samples": c["samples"][:8]})
+    return out
+
+def render_to_coq(c, r):
+    if "exc" in r: return None
+    rs = []
+    for x in r["rs"]:
+        if "exc" in x:
+            q, kin, vals = cerr(x, "str"), "false", "(@nil str)"
+        else:
+            if not isinstance(x["q"], str): return None
+            q = f"(Ok {cstr(x['q'])})"
+            kin = "true" if re.match(r'^f in \(', x["q"]) else "false"
+            vals = "(" + clist(cstr(v) for v in re.findall(r'"([^"]*)"', x["q"])) + " : list str)"
+        rs.append(f"({'true' if x['o'] else 'false'}, {'true' if x['a'] else 'false'}, {q}, {kin}, {vals})")
+    smp = clist(f"({cA(a)}, {cstr(t)})" for a, t in zip(c.get("samples", []), r["texts"])) if r["texts"] else "(@nil (N * str))"
+    return f"({cstr(c['s'])}, {cnet(c['net'])}, {smp}, {clist(rs)})"
+
+def known_render(c, r):
+    e = c["net"]
+    if e["v"] == 6 and not fixed_groups_nonzero(int(e["addr"]), e["len"]):
+        return "D20-ipv6-expansion-misses-addresses"
+    return None
+
+def stratum_render(c, r):
+    e = c["net"]
+    return f"v{e['v']} " + ("wildcards" if (e["v"] == 4 and e["len"] <= 24) or (e["v"] == 6 and e["len"] <= 124) else "plain addresses")
+
 # ------------------------------------------------------------------ print6 suite
 def gen_print6(tier, rng):
     out = set()
@@ -370,6 +419,8 @@ PROPERTY = Property(
               mutate=mutate_expand, stratum=stratum_expand, shard=400),
         Suite("native", gen_native, "run_native", REQ, "judge_native", native_to_coq, known=known_native,
               mutate=mutate_native, shard=200),
+        Suite("render", gen_render, "run_render", REQ, "judge_render", render_to_coq, known=known_render,
+              mutate=mutate_native, stratum=stratum_render, shard=200),
         Suite("print6", gen_print6, "run_print6", REQ, "judge_print6", print6_to_coq, shard=600),
     ],
     rule="IPv4: all prefix lengths 0..32 x 15 boundary addresses + random, spelled with prefix length, zero-padded length, "
